@@ -16,11 +16,25 @@ for m in sorted(glob.glob(os.path.join(V, "seeded", "*", "meta.json"))):
     log = os.path.join(os.path.dirname(m), "check.log")
     verdicts = []
     if os.path.exists(log):
-        for l in open(log):
-            if "RESULT" in l or "MISSED" in l:
-                verdicts.append(re.sub(r"\s+", " ", l.strip())[:160])
+        # one block per run of the check against the change ("== <date> ..." header, then VIOLATION / RESULT lines)
+        blocks = re.split(r"^== ", open(log).read(), flags=re.M)
+        for b in blocks:
+            if not b.strip():
+                continue
+            if "MISSED" in b or re.search(r"RESULT .*rc=0", b):
+                verdicts.append("missed")
+            elif "VIOLATION" in b or re.search(r"RESULT .*rc=1", b):
+                verdicts.append("caught")
+            elif re.search(r"RESULT .*rc=2", b) or "INCONCLUSIVE" in b:
+                verdicts.append("inconclusive")
+    if not verdicts:
+        outcome = "not yet run"
+    elif verdicts[-1] == "caught":
+        outcome = "caught" + (" after strengthening the check (first %s)" % verdicts[0] if verdicts[0] != "caught" else "")
+    else:
+        outcome = "**%s**" % verdicts[-1] + (" (%d runs)" % len(verdicts) if len(verdicts) > 1 else "")
     rows.append("| %s | %s | %s | %s | %s |" % (name, j.get("property", ""), j.get("summary", "").replace("|", "/").replace("\n", " ")[:300],
-                                          j.get("needs", "").replace("|", "/").replace("\n", " ")[:200], j.get("caught", "; ".join(verdicts[-2:]) or "not yet run")))
+                                          j.get("needs", "").replace("|", "/").replace("\n", " ")[:200], j.get("caught", outcome)))
 parts.append("\n### 11.1 Seeded property-breaking changes (written by fresh sub-agents that saw only the property text)\n\n"
              "Each is stored under `seeded/<name>/` (patch.diff, demonstration, meta.json, confirm.log = independent confirmation that it "
              "compiles, passes the existing tests and that the demonstration fails with / passes without the change, check.log = verdicts of our check).\n\n"
